@@ -183,6 +183,10 @@ func (vc *VC) loadLeaf(st *State, p Val, t types.Type, l leaf) Term {
 }
 
 func (vc *VC) store(st *State, p Val, t types.Type, v Val) {
+	if v.K == KFunc && len(v.Binds) > 0 {
+		// a closure stored in memory may be run by anybody later: its captured cells are shared
+		vc.markShared(v)
+	}
 	if s, ok := structOf(t); ok {
 		if len(p.Path) != 0 {
 			vc.unsupported("struct store through interior pointer")
